@@ -18,7 +18,7 @@ lookups under all case rules) is run against linear reference scans.
 Hidden state that is *not* in the snapshot (Taxon._lower_cased_label, stale cache
 entries for removed taxa) only matters when the same Taxon object is used again;
 that is covered by compound operations executed on one live object ("read
-lower_cased_label, then relabel", "remove, then add the same object") and by the
+lower_cased_label, then relabel", "remove / clear, then add the same object") and by the
 light observation suite that is run on the live object after every transition.
 """
 import copy
@@ -38,7 +38,7 @@ RULE = ("explicit-state BFS: start states = every TaxonNamespace(...) constructo
         "the start bound x both case-sensitivity settings; from every visited state every operation of the alphabet "
         "(add_taxon new/member, new_taxon, new_taxa, add_taxa, require_taxon, remove_taxon member/non-member, "
         "remove_taxon_label, discard_taxon_label, del ns[i], sort x3, reverse, clear, relabel (cold/warm lower-case "
-        "cache), remove+re-add same object, taxon_bitmask(member) [cache fill], set is_mutable / is_case_sensitive, "
+        "cache), remove+re-add same object, clear+re-add same object, taxon_bitmask(member) [cache fill], set is_mutable / is_case_sensitive, "
         "TaxonNamespace(ns), copy.copy, copy.deepcopy) with every argument choice (labels a/A/b incl. duplicates, "
         "every member index, is_case_sensitive None/True/False, first_match_only both) is applied to a fresh rebuild, "
         "up to the depth bound and <= max_members live members; a case = one transition (state, op) or one visited "
@@ -50,7 +50,7 @@ ASSUMPTIONS = [
     "(any other attribute appearing in __dict__ aborts the run as a harness error); states are rebuilt by "
     "assigning these fields directly",
     "Taxon objects that are not members carry no namespace state except through re-use of the same object, which is "
-    "explored by the compound operations 'remove+add same object' and 'read lower_cased_label, relabel' and by "
+    "explored by the compound operations 'remove+add same object', 'clear+add same object' and 'read lower_cased_label, relabel' and by "
     "running the light observation suite on the live object after every transition",
     "case-insensitive matching is str.lower() equality (documented as lower_cased_label); labels of the alphabet "
     "need no Newick quoting, so a rendered token is the label itself",
@@ -88,14 +88,10 @@ KNOWN_TAXON_FIELDS = {"_label", "_lower_cased_label", "comments", "_annotations"
 
 
 def bounds(tier):
-    import os
-    if os.environ.get("C10_DEPTH"):   # TEMPORARY dev knob
-        return {"depth": int(os.environ["C10_DEPTH"]), "max_members": 4, "labels": list(LABELS), "start_label_sequences_up_to": 2,
-                "case_args": list(CS3), "chunk_states": 40}
     if tier == "quick":
         return {"depth": 4, "max_members": 4, "labels": list(LABELS), "start_label_sequences_up_to": 2,
                 "case_args": list(CS3), "chunk_states": 40}
-    return {"depth": 4, "max_members": 4, "labels": list(LABELS), "start_label_sequences_up_to": 3,
+    return {"depth": 5, "max_members": 4, "labels": list(LABELS), "start_label_sequences_up_to": 3,
             "case_args": list(CS3), "chunk_states": 60}
 
 
@@ -257,6 +253,12 @@ def model(state, op):
         out["after"] = cur[::-1]
     elif kind == "clear":
         out["after"] = []
+    elif kind == "clear_readd":
+        if mut:
+            out["after"] = [("re", op[1])]
+        else:
+            out["after"] = []
+            out["exc"] = "immutable"
     elif kind == "readd":
         rest = [i for i in cur if i != op[1]]
         if mut:
@@ -303,6 +305,7 @@ def enabled_ops(state, b):
         ops.append(("remove", i))
         ops.append(("del", i))
         ops.append(("readd", i))
+        ops.append(("clear_readd", i))
         if not members[i][2]:
             ops.append(("touch", i))
         for l in L:
@@ -331,7 +334,7 @@ SITE = {
     "add_new": "add_taxon", "add_member": "add_taxon(member)", "new_taxon": "new_taxon", "new_taxa": "new_taxa",
     "add_taxa": "add_taxa", "require": "require_taxon", "remove": "remove_taxon",
     "remove_nonmember": "remove_taxon(non-member)", "del": "delitem", "sort": "sort", "reverse": "reverse",
-    "clear": "clear", "readd": "remove_taxon+add_taxon(same object)", "relabel": "relabel",
+    "clear": "clear", "readd": "remove_taxon+add_taxon(same object)", "clear_readd": "clear+add_taxon(same object)", "relabel": "relabel",
     "set_mutable": "set_is_mutable", "set_cs": "set_is_case_sensitive", "touch": "taxon_bitmask",
 }
 
@@ -382,6 +385,8 @@ def opstr(op):
         return "ns.clear()"
     if k == "readd":
         return "t=ns[%d]; ns.remove_taxon(t); ns.add_taxon(t)" % op[1]
+    if k == "clear_readd":
+        return "t=ns[%d]; ns.clear(); ns.add_taxon(t)" % op[1]
     if k == "relabel":
         return "%sns[%d].label = %r" % ("ns[%d].lower_cased_label; " % op[1] if op[3] else "", op[1], op[2])
     if k == "copy":
@@ -463,6 +468,10 @@ def do(op, ns, old, args):
         t = old[op[1]]
         ns.remove_taxon(t)
         return ns.add_taxon(t)
+    if k == "clear_readd":
+        t = old[op[1]]
+        ns.clear()
+        return ns.add_taxon(t)
     if k == "relabel":
         t = old[op[1]]
         if op[3]:
@@ -494,56 +503,80 @@ def single_bit(b):
     return isinstance(b, int) and b > 0 and (b & (b - 1)) == 0
 
 
-def light_observations(sig_site, ns, live, bits, ns_cs, V):
-    """Cheap observation suite on a live object: bits of all members, singleton and full-set round trips,
-    findall for every label x case rule.  V(signature, message)."""
-    ok = True
+def _light(ns, live, bits, ns_cs):
+    """Cheap observation suite: full-set and singleton round trips, all_taxa_bitmask, findall for
+    every label x case rule.  Returns [(signature, message)] of failed observations (signatures
+    are the same as those of the full suite in check_state)."""
+    fails = []
+    want = 0
+    for b in bits:
+        want |= b
+    full = None
     try:
         full = ns.taxa_bitmask(taxa=list(live))
-        want = 0
-        for b in bits:
-            want |= b
         if full != want:
-            V("taxa_bitmask|wrong-mask|after:" + sig_site, "taxa_bitmask(all members)=%s, members' bits give %s" % (bin(full), bin(want)))
-            ok = False
-        back = ns.bitmask_taxa_list(full)
-        if len(back) != len(live) or set(map(id, back)) != set(map(id, live)):
-            V("bitmask_taxa_list|wrong-taxa|after:" + sig_site, "bitmask_taxa_list(%s) returned %s, members are %s" % (
-                bin(full), [t._label for t in back], [t._label for t in live]))
-            ok = False
+            fails.append(("taxa_bitmask|wrong-mask", "taxa_bitmask(all members)=%s, members' bits give %s" % (bin(full), bin(want))))
+            full = None
+    except Exception as e:
+        fails.append(("taxa_bitmask|exception:%s" % type(e).__name__, "taxa_bitmask(taxa=all members) raised %r" % (e,)))
+    try:
+        if full is not None:
+            back = ns.bitmask_taxa_list(full)
+            if len(back) != len(live) or set(map(id, back)) != set(map(id, live)):
+                fails.append(("bitmask_taxa_list|wrong-taxa", "bitmask_taxa_list(%s) returned %s, members are %s" % (
+                    bin(full), [t._label for t in back], [t._label for t in live])))
         for t, b in zip(live, bits):
             back = ns.bitmask_taxa_list(b)
             if len(back) != 1 or back[0] is not t:
-                V("bitmask_taxa_list|wrong-taxa|after:" + sig_site, "bitmask_taxa_list(%s) returned %s, the bit belongs to %r" % (
-                    bin(b), [x._label for x in back], t._label))
-                ok = False
+                fails.append(("bitmask_taxa_list|wrong-taxa", "bitmask_taxa_list(%s) returned %s, the bit belongs to %r" % (
+                    bin(b), [x._label for x in back], t._label)))
                 break
+    except Exception as e:
+        fails.append(("bitmask_taxa_list|exception:%s" % type(e).__name__, "bitmask_taxa_list raised %r" % (e,)))
+    try:
         am = ns.all_taxa_bitmask()
         if (am & want) != want:
-            V("all_taxa_bitmask|misses-member-bit", "all_taxa_bitmask()=%s does not contain members' bits %s" % (bin(am), bin(want)))
-            ok = False
+            fails.append(("all_taxa_bitmask|misses-member-bit", "all_taxa_bitmask()=%s does not contain members' bits %s" % (bin(am), bin(want))))
     except Exception as e:
-        V("bitmask-roundtrip|exception:%s|after:%s" % (type(e).__name__, sig_site), "bitmask round trip raised %r" % (e,))
-        ok = False
+        fails.append(("all_taxa_bitmask|exception:%s" % type(e).__name__, repr(e)))
     labels = [t._label for t in live]
     for q in LABELS:
         for c in CS3:
             e = eff_cs(c, ns_cs)
-            want = [live[i] for i in scan(labels, q, e)]
+            wantl = [live[i] for i in scan(labels, q, e)]
             try:
                 got = ns.findall(q, is_case_sensitive=CSVAL[c])
             except Exception as ex:
-                V("findall|exception:%s" % type(ex).__name__, "findall(%r) raised %r" % (q, ex))
-                return False
-            if len(got) != len(want) or any(x is not y for x, y in zip(got, want)):
-                V("findall|wrong-result|%s" % ("case-sensitive" if e else "case-insensitive"),
-                  "findall(%r, is_case_sensitive=%s) on labels %s (namespace is_case_sensitive=%s) returned %s, linear scan gives %s" % (
-                      q, CSVAL[c], labels, ns_cs, [t._label for t in got], [t._label for t in want]))
-                ok = False
-    return ok
+                fails.append(("lookup|exception:%s" % type(ex).__name__, "findall(%r) raised %r" % (q, ex)))
+                return fails
+            if not isinstance(got, list) or len(got) != len(wantl) or any(x is not y for x, y in zip(got, wantl)):
+                fails.append(("findall|wrong-result|%s" % ("case-sensitive" if e else "case-insensitive"),
+                              "findall(%r, is_case_sensitive=%s) on labels %s (namespace is_case_sensitive=%s) returned %s, linear scan gives %s" % (
+                                  q, CSVAL[c], labels, ns_cs, [t._label for t in got] if isinstance(got, list) else got,
+                                  [t._label for t in wantl])))
+    return fails
 
 
-def check_transition(state, op, ctx, want_succ=True):
+def light_observations(sig_site, ns, live, bits, ns_cs, V, succ=None):
+    """Run the cheap suite on the live object an operation has just been applied to.  An observation
+    that also fails on a fresh rebuild of the same snapshot is a defect of the observer and keeps
+    its plain signature; one that fails only on the live object was caused by the operation (state
+    outside the snapshot) and is reported as '<observer signature>|after:<operation>'."""
+    fails = _light(ns, live, bits, ns_cs)
+    if not fails:
+        return
+    base = None
+    if succ is not None:
+        ns2, live2 = build(succ)
+        base = set(sig for sig, _m in _light(ns2, live2, [1 << m[1] for m in succ[3]], succ[0]))
+    for sig, msg in fails:
+        if base is not None and sig in base:
+            V(sig, msg)
+        else:
+            V("%s|after:%s" % (sig, sig_site), msg)
+
+
+def check_transition(state, op, ctx):
     """Apply op to a fresh rebuild of state; compare with the model; returns the successor
     state (or None when the transition violated the model / has no representable result)."""
     state = tup(state)
@@ -684,7 +717,7 @@ def check_transition(state, op, ctx, want_succ=True):
     #    invalidate the state itself, so the successor is still explored)
     if bad[0]:
         return None
-    light_observations(s_site, target, live, bits, target.is_case_sensitive, Vobs)
+    light_observations(s_site, target, live, bits, target.is_case_sensitive, Vobs, succ)
     if succ is None:
         V("%s|inconsistent-internal-maps" % s_site, "; ".join(probs))
         return None
@@ -931,7 +964,7 @@ def check_ctor(op, ctx):
         V("TaxonNamespace(iterable)|flag-lost", "is_case_sensitive=%r" % (ns.is_case_sensitive,))
     if bad[0]:
         return None
-    light_observations("TaxonNamespace(iterable)", ns, live, bits, bool(cs), lambda sig, msg: V(sig, msg, fatal=False))
+    light_observations("TaxonNamespace(iterable)", ns, live, bits, bool(cs), lambda sig, msg: V(sig, msg, fatal=False), succ)
     if succ is None:
         V("TaxonNamespace(iterable)|inconsistent-internal-maps", "; ".join(probs))
     return succ
@@ -1008,11 +1041,15 @@ def run_level(chunk, ctx):
             finally:
                 _BUDGET[0] = None
         ctx.merge(sub)
-        ctx.sample({"state": pretty(state), "depth": chunk["depth"]}, 1)
     if chunk["expand"] and chunk["states"]:
         st = tup(chunk["states"][len(chunk["states"]) // 2])
         ops = enabled_ops(st, b)
-        ctx.sample({"state": pretty(st), "enabled_ops": len(ops), "some_ops": [opstr(o) for o in ops[::max(1, len(ops) // 6)]][:7]}, 2)
+        scratch = Ctx()
+        written = []
+        for o in ops[::max(1, len(ops) // 5)][:6]:
+            nxt = check_transition(st, o, scratch)
+            written.append({"op": opstr(o), "result": pretty(nxt) if nxt is not None else "(violation, no successor)"})
+        ctx.sample({"depth": chunk["depth"], "state": pretty(st), "enabled_ops": len(ops), "some_transitions": written}, 3)
     return out
 
 
